@@ -166,9 +166,46 @@ class PlanHarness(e1.Harness):
         s.ctx = {"raised": {}, "vals": {}}
         return s.ctx
 
+    def make_recorder(self, s):
+        from uberjob.progress import Progress, ProgressObserver
+
+        hp = e1.hpoint if self.cfg.get("obs_points") else (lambda at: None)
+
+        class Recorder(ProgressObserver):
+            def __enter__(self_):
+                s.log("obs", "enter")
+                e1.hpoint("obs.enter")
+
+            def __exit__(self_, et, ev, tb):
+                s.log("obs", "exit", getattr(et, "__name__", None))
+                e1.hpoint("obs.exit")
+
+            def increment_total(self_, *, section, scope, amount):
+                s.log("obs", "total", section, scope, amount)
+
+            def increment_running(self_, *, section, scope):
+                s.log("obs", "running", section, scope)
+                hp("obs.running")
+
+            def increment_completed(self_, *, section, scope):
+                s.log("obs", "completed", section, scope)
+                hp("obs.completed")
+
+            def increment_failed(self_, *, section, scope, exception):
+                s.log("obs", "failed", section, scope, type(exception).__name__)
+                hp("obs.failed")
+
+        return Progress(Recorder)
+
     def run_kwargs(self):
         cfg = self.cfg
         kw = dict(max_workers=cfg["W"], scheduler=cfg.get("sched"), progress=None)
+        if cfg.get("observer") == "rec":
+            kw["progress"] = self.make_recorder(e1.sched())
+        elif cfg.get("observer") == "rec2":
+            from uberjob.progress import composite_progress
+
+            kw["progress"] = composite_progress(self.make_recorder(e1.sched()), self.make_recorder(e1.sched()))
         if "max_errors" in cfg:
             kw["max_errors"] = cfg["max_errors"]
         return kw
